@@ -144,7 +144,9 @@ async def _run(sc: dict, holder: dict | None = None) -> dict:
         from ramses_tx.transport import _DEFAULT_TIMEOUT_PORT
         t = new_transport(protocol)
         cur["tr"] = t
-        if t.k not in dead:
+        if t.k in dead:
+            state.setdefault("silent", []).append(t.k)
+        else:
             def _announce() -> None:
                 if not t.closed:
                     R.rec(e="TpAnn", n=t.k)
@@ -243,9 +245,10 @@ async def _run(sc: dict, holder: dict | None = None) -> dict:
               b=0 if proto._wait_connection_lost is None else (2 if proto._wait_connection_lost.done() else 1),
               p=1 if proto._active_hgi else 0, i=0, r=len([x for x in gwy._tasks if not x.done()]))
 
-    await gw_start()
-    await vloop.drain(4)
-    proj("started")
+    if not sc.get("manual_start"):      # (scenarios taken from the model bring their own first start())
+        await gw_start()
+        await vloop.drain(4)
+        proj("started")
     t_base = loop.time()
 
     tasks: dict[int, asyncio.Task] = {}
@@ -367,6 +370,7 @@ async def _run(sc: dict, holder: dict | None = None) -> dict:
             # the application's way back: stop what is left of the old connection, start again
             if not state["stopped"]:
                 await gw_stop()
+            dead.clear()        # "a responsive device": the port of the probe's connection answers
             await gw_start()
             await vloop.drain()
         state["fail_writes"] = 0
@@ -388,7 +392,7 @@ async def _run(sc: dict, holder: dict | None = None) -> dict:
     await vloop.drain(2)
     R.rec(e="End", k=type(ctx.state).__name__)
     return {"echo_to": tu(ctx.echo_timeout), "rply_to": tu(ctx.reply_timeout), "untimed": 0, "ev": R.ev,
-            "dead": sorted(dead)}
+            "dead": sorted(state.get("silent", []))}      # the ports that did stay silent
 
 
 def run_scenario(sc: dict, stuck_s: float = 10.0) -> dict:
